@@ -402,6 +402,32 @@ theorem positions_length (k : K) (l : List (K × V)) : ∀ n,
 
 example : positions 1 [((1 : Nat), (10 : Nat)), (2, 20), (1, 11)] 0 = [0, 2] := by decide
 
+/-! ### `pop()`, `setdefault`, `popall` -/
+
+/-- `pop()` removes and returns the last pair; on an empty container it raises `KeyError` -/
+theorem pop_last (l : List (K × V)) (p : K × V) :
+    Spec.step (l ++ [p]) (Op.pop : Op K V) = (l, .pair p) := by
+  simp [Spec.step]
+
+theorem pop_empty : Spec.step ([] : List (K × V)) (Op.pop : Op K V) = ([], .err .key) := by
+  simp [Spec.step]
+
+/-- `setdefault` returns the first value of a present key and changes nothing … -/
+theorem setdefault_present (l : List (K × V)) (k : K) (v v' : V) (h : first l k = some v') :
+    Spec.step l (Op.setdefault k v) = (l, .val v') := by
+  simp [Spec.step, h]
+
+/-- … and appends the pair for a new key -/
+theorem setdefault_absent (l : List (K × V)) (k : K) (v : V) (h : hasKey l k = false) :
+    Spec.step l (Op.setdefault k v) = (l ++ [(k, v)], .val v) := by
+  have : first l k = none := (first_none_iff l k).2 h
+  simp [Spec.step, this]
+
+/-- `popall(key)` returns the first value and removes every pair of that key -/
+theorem popall_present (l : List (K × V)) (k : K) (d : Option V) (v : V) (h : first l k = some v) :
+    Spec.step l (Op.popall k d) = (remove l k, .val v) := by
+  simp [Spec.step, h]
+
 /-- Non-vacuity: a concrete history with duplicates inserted in the middle. -/
 example :
     (run (empty : OMD Nat Nat)
